@@ -158,7 +158,7 @@ def spec_sniff(doc, include_default=True):
 
 # -- regions of the known findings ------------------------------------------------------------------
 def region_short(doc):
-    """C20-xml-short: fewer than four characters"""
+    """C20-info-short: fewer than four characters (getEncodingInfo level only; the sniffer itself answers since 759e903)"""
     return len(doc) < 4
 
 
